@@ -341,6 +341,43 @@ def d3_sqlite_run(carve):
     return o
 
 
+def d9_run(carve):
+    """columns of parametrised types (Decimal(p, s), Enum): the static type of expressions over them predicts the exported type"""
+    import decimal
+
+    import polars as pl
+
+    known = {"a.shift(1)", "e.shift(1)", "e.fill_null('x')", "max(a, a)", "a + a", "a.max()"} if "parametrised_types" in carve else set()  # the expressions named by F-parametrised-static-types
+    D = decimal.Decimal
+    n, bad = 0, []
+    with warnings.catch_warnings():
+        warnings.simplefilter("ignore")
+        t = pdt.Table(pl.DataFrame({"a": pl.Series([D("1.00"), D("2.50"), None], dtype=pl.Decimal(10, 2)), "k": [1, 2, 3], "e": pl.Series(["x", "y", None], dtype=pl.Enum(["x", "y"]))}), name="t")
+        exprs = {
+            "a": lambda: t.a, "e": lambda: t.e, "a.shift(1)": lambda: t.a.shift(1, arrange=t.k), "a.fill_null(None)": lambda: t.a.fill_null(None), "e.shift(1)": lambda: t.e.shift(1, arrange=t.k), "e.fill_null('x')": lambda: t.e.fill_null("x"),
+            "max(a, a)": lambda: pdt.max(t.a, t.a), "coalesce(e, None)": lambda: pdt.coalesce(t.e, None), "a + a": lambda: t.a + t.a, "when(k > 1).then(e)": lambda: pdt.when(t.k > 1).then(t.e), "a.max()": lambda: t.a.max(), "a == a": lambda: t.a == t.a,
+        }
+        for label, mk in exprs.items():
+            if label in known:
+                continue
+            n += 1
+            try:
+                x = t >> pdt.mutate(r=mk())
+                out = x >> pdt.export(pdt.Polars())
+            except Exception as e:  # noqa: BLE001
+                bad.append(f"{label}: {type(e).__name__}: {str(e)[:100]}")
+                continue
+            st = T.without_const(x.r.dtype())
+            got = out.schema["r"]
+            try:
+                ok = (type(st) is pdt.Float and got.is_float()) or (type(st) is pdt.Int and got.is_integer()) or st.to_polars() == got
+            except Exception:  # noqa: BLE001
+                ok = False
+            if not ok:
+                bad.append(f"{label}: static type {st}, exported {got}")
+    return _enum_outcome("expressions over Decimal(p, s) / Enum columns: the static type predicts the exported type", n, bad)
+
+
 def d8_run(carve):
     """unions: the static type of every result column is the common type of the two operand columns OF THAT NAME (operands may
     list their columns in different orders and with different but compatible types), and the exported frame has it"""
@@ -523,6 +560,8 @@ def obligations(tier):
         Obligation("C12/D3/sqlite_ops", "D3", "exported SQLite column family vs static type", d3_sqlite_run, functions=[fi(H.sql_backend.SqlImpl.compile_col_expr), fi(H.sql_backend.SqlImpl.export), fi(H.sqlite_backend.SqliteImpl.fix_fn_types)], bounded="Int64/Float64/String/Bool columns, arity <= 2 (native SQLite execution)", carveouts={"sqlite_dynamic_typing": "int/float family under SQLite's dynamic typing"}),
         Obligation("C12/D6/verbs", "D6", "exported dtypes of all columns after enumerated pipelines (joins with differently typed keys, unions, summarize, windows)", d6_run, functions=[fi(H.polars_backend.compile_ast), fi(H.sql_backend.SqlImpl.export), fi(pdt._internal.pipe.cache.Cache.update)],
                    bounded="pipelines of depth <= 2 over the C01 step alphabet plus 6 joins with Int32/Float64 == Int64 keys; one input table; native execution on Polars and SQLite", carveouts={"sqlite_dynamic_typing": "int/float family under SQLite's dynamic typing", "int_as_float": "Int column through a Float-only operator"}),
+        Obligation("C12/D9/parametrised_columns", "D9", "Decimal(p, s) / Enum columns: static vs exported type of 12 expressions (Polars)", d9_run, functions=[fi(H.types_mod.lca_type), fi(pdt._internal.ops.signature.SignatureTrie.best_match) if hasattr(pdt._internal.ops.signature, "SignatureTrie") else fi(H.types_mod.lca_type)],
+                   bounded="12 expressions over one Decimal(10, 2) and one Enum column", carveouts={"parametrised_types": "the six expressions named by F-parametrised-static-types"}),
         Obligation("C12/D8/union_types", "D8", "union: static column types are the common types of the operand columns by name; exported dtypes follow", d8_run, functions=[fi(pdt._internal.pipe.cache.Cache.update), fi(H.polars_backend.compile_ast), fi(H.sql_backend.SqlImpl.compile_ast)],
                    bounded="5 type assignments x up to 6 column orders of the right operand x 2 backends"),
         Obligation("C12/D7/sql_import", "D7", "types of an imported SQL table follow the database, not an earlier import", d7_run, functions=[fi(H.sql_backend.SqlImpl.__init__), fi(H.sql_backend.SqlImpl.pdt_type)], bounded="three table versions under one name on one in-memory SQLite engine"),
